@@ -67,15 +67,23 @@ def observe(t, h):
     sf = getattr(h, "state_fn", None)
     o = {"state_fn_ok": fn is not None and (sf is fn or sf is getattr(fn, "__wrapped__", fn))}
     if hasattr(h, "current_state") and getattr(h, "instrumented", False):
-        o["current_state"] = h.current_state()
+        o["current_state"] = _norm_name(t, cur, h.current_state())
     o.update(_observe_core(t, h, cur))
     return o
+
+
+def _norm_name(t, cur, name):
+    """a reported state name is right if it is the __name__ of the current state's function: reported in the reference
+    model's vocabulary (s<i>), so that families whose functions carry other names (all called `idle`) compare equal"""
+    if isinstance(cur, int) and cur >= 0 and name == getattr(t.S[cur], "__name__", None):
+        return NAMES[cur]
+    return name
 
 
 def _observe_core(t, h, cur):
     return {"log": [x for x in t.log if x[0] != "empty"],
             "state": cur,
-            "state_name": getattr(h, "state_name", None),
+            "state_name": _norm_name(t, cur, getattr(h, "state_name", None)),
             "temp_is_state": h.temp.fun is h.state.fun or h.temp.fun == h.state.fun,
             "ignored": h.event.ignored}
 
